@@ -23,9 +23,11 @@ tvars == <<vars, l, bview>>
 ToSet(s) == {s[i] : i \in DOMAIN s}
 PairSet(s) == {<<s[i][1], s[i][2]>> : i \in DOMAIN s}
 HbOf(h) == [m \in Members |-> h[m]]
+Partitions == {0, 1}      \* of the stream the members subscribe to
 
-ObsOf(e) == IF e.a = "Wait"
-            THEN [a |-> e.obs.a, err |-> e.obs.err, fired |-> PairSet(e.obs.fired), acc |-> ToSet(e.obs.acc)]
+ObsOf(e) == IF e.a = "Wait" /\ e.obs.crash = ""
+            THEN [a |-> e.obs.a, err |-> e.obs.err, fired |-> PairSet(e.obs.fired), acc |-> ToSet(e.obs.acc),
+                  rej |-> ToSet(e.obs.rej)]
             ELSE [a |-> e.obs.a, err |-> e.obs.err]
 
 Bind(e) ==
@@ -33,6 +35,8 @@ Bind(e) ==
   /\ tmr' = [s \in Servers |-> ToSet(e.st.tmr[s])]
   /\ fo' = [on |-> e.st.fo.on, wit |-> ToSet(e.st.fo.wit)]
   /\ pend' = e.st.pend
+  /\ pendx' = PairSet(e.st.pendx)
+  /\ crashed' = (e.obs.crash # "")
   /\ obs' = ObsOf(e)
   /\ bview' = e.st.views
 
@@ -42,6 +46,8 @@ TraceInit ==
   /\ tmr = [s \in Servers |-> ToSet(e.st.tmr[s])]
   /\ fo = [on |-> e.st.fo.on, wit |-> ToSet(e.st.fo.wit)]
   /\ pend = e.st.pend
+  /\ pendx = PairSet(e.st.pendx) /\ crashed = FALSE
+  /\ gen = [m \in Members |-> 0] /\ xgen = [m \in Members |-> 0] /\ taint = FALSE
   /\ obs = [a |-> "Open", err |-> ""]
   /\ bview = e.st.views
   /\ armed = FALSE /\ good = {}
@@ -68,6 +74,7 @@ GoodAfter(e) ==
     [] e.a = "ReportApply" -> ApplyGood(pend[e.args.i])
     [] e.a = "Join" -> IF exists THEN good ELSE {}
     [] e.a = "Leave" -> IF members = {e.args.m} THEN {} ELSE good
+    [] e.a = "ExpireApply" -> IF members = {e.args.m} THEN {} ELSE good
     [] e.a \in {"Heartbeat", "ReportCheck", "Skip"} -> good
     [] OTHER -> {}          \* Wait, Lose, Restart
 ArmedAfter(e) ==
@@ -76,8 +83,33 @@ ArmedAfter(e) ==
     [] e.a = "ReportApply" -> ApplyArmed(pend[e.args.i])
     [] e.a = "Join" -> IF exists THEN armed ELSE FALSE
     [] e.a = "Leave" -> IF members = {e.args.m} THEN FALSE ELSE armed
+    [] e.a = "ExpireApply" -> IF members = {e.args.m} THEN FALSE ELSE armed
     [] e.a \in {"Heartbeat", "ReportCheck", "Skip"} -> armed
     [] OTHER -> FALSE
+
+\* generations: a consumer id that joins (successfully) begins a new membership
+GenAfter(e) ==
+  IF e.a = "Open" THEN [m \in Members |-> 0]
+  ELSE IF e.a = "Join" /\ e.obs.err = "" THEN [gen EXCEPT ![e.args.m] = @ + 1]
+  ELSE gen
+XgenAfter(e) ==
+  IF e.a = "Open" THEN [m \in Members |-> 0]
+  ELSE IF e.a = "Wait" /\ e.args.park
+       THEN [m \in Members |-> IF \E s \in Servers : <<s, m>> \in PairSet(e.obs.fired) THEN gen[m] ELSE xgen[m]]
+  ELSE xgen
+TaintAfter(e) ==
+  IF e.a = "Open" THEN FALSE
+  ELSE IF e.a = "ExpireApply" THEN taint \/ (exists /\ e.args.m \in members /\ gen[e.args.m] # xgen[e.args.m])
+  ELSE taint
+
+\* the removal of members is followed by a rebalance: when everybody who is left has just fetched its
+\* assignments (they all kept heartbeating), every partition of the stream is assigned to exactly one of them
+Rebalanced(e) ==
+  LET asg == PairSet(e.obs.asg)
+      S == ToSet(e.st.members) IN
+  (e.st.exists /\ e.st.coord \in Servers /\ \A m \in S : e.args.hb[m] = "good") =>
+     /\ \A x \in asg : x[1] \in S
+     /\ \A p \in Partitions : Cardinality({m \in S : <<m, p>> \in asg}) = 1
 
 PropOf(e) ==
   CASE e.a = "Join" -> P_Join(e.args.m)
@@ -86,7 +118,8 @@ PropOf(e) ==
     [] e.a = "Report" -> P_Report(e.args.m, e.args.c, e.args.e)
     [] e.a = "ReportCheck" -> P_ReportCheck(e.args.m, e.args.c, e.args.e)
     [] e.a = "ReportApply" -> P_ReportApply(e.args.i)
-    [] e.a = "Wait" -> P_Wait(HbOf(e.args.hb))
+    [] e.a = "Wait" -> P_Wait(HbOf(e.args.hb), e.args.park)
+    [] e.a = "ExpireApply" -> P_ExpireApply(e.args.s, e.args.m)
     [] e.a = "Restart" -> P_Restart
     [] OTHER -> P_Quiet
 
@@ -97,10 +130,11 @@ ImplOf(e) ==
     [] e.a = "Report" -> DoReport(e.args.m, e.args.c, e.args.e, e.args.pref)
     [] e.a = "ReportCheck" -> DoReportCheck(e.args.m, e.args.c, e.args.e)
     [] e.a = "ReportApply" -> DoReportApply(e.args.i, e.args.pref)
-    [] e.a = "Wait" -> DoWait(HbOf(e.args.hb))
+    [] e.a = "Wait" -> DoWait(HbOf(e.args.hb), e.args.park)
+    [] e.a = "ExpireApply" -> DoExpireApply(e.args.s, e.args.m)
     [] e.a = "Lose" -> DoLose
     [] e.a = "Restart" -> DoRestart(e.args.s)
-    [] e.a = "Skip" -> UNCHANGED <<exists, members, coord, epoch, tmr, fo, pend>>
+    [] e.a = "Skip" -> UNCHANGED <<exists, members, coord, epoch, tmr, fo, pend, pendx>>
     [] OTHER -> FALSE
 
 \* every running server holds the same group (they applied the same log)
@@ -114,20 +148,26 @@ TraceNext ==
   /\ l' = l + 1
   /\ LET e == Trace[l] IN
      /\ Bind(e)
-     /\ good' = GoodAfter(e)
-     /\ armed' = ArmedAfter(e)
-     /\ IF e.a = "Open" THEN TRUE
-        ELSE /\ Chk(PropOf(e), "P", e, "step")
-             /\ Chk(P_Epochs, "P", e, "P_Epochs")
-             /\ Chk(e.a = "Wait" \/ e.obs.fired = <<>>, "P", e, "NoSpontaneousExpiry")
-             /\ Chk(ImplOf(e), "I", e, "step")
-     /\ Chk(X01_TimersOnlyAtCoordinator', "P", e, "X01_TimersOnlyAtCoordinator")
-     /\ Chk(e.obs.crash = "", "P", e, "NoCrash")
-     /\ Chk(ViewsAgree(e), "I", e, "ViewsAgree")
-     /\ Chk(TypeOK', "I", e, "TypeOK")
-     /\ Chk(TimersComplete', "I", e, "TimersComplete")
-     /\ Chk(StatusLive', "I", e, "StatusLive")
-     /\ Chk(WitnessesAreGood', "I", e, "WitnessesAreGood")
+     /\ IF e.obs.crash # "" THEN
+          \* a server died in this step: that is the observation (nothing else was recorded)
+          /\ UNCHANGED <<good, armed, gen, xgen, taint>>
+          /\ Chk(X01_NoCrash', "P", e, "X01_NoCrash")
+        ELSE
+          /\ good' = GoodAfter(e)
+          /\ armed' = ArmedAfter(e)
+          /\ gen' = GenAfter(e) /\ xgen' = XgenAfter(e) /\ taint' = TaintAfter(e)
+          /\ IF e.a = "Open" THEN TRUE
+             ELSE /\ Chk(PropOf(e), "P", e, "step")
+                  /\ Chk(P_Epochs, "P", e, "P_Epochs")
+                  /\ Chk(e.a = "Wait" \/ e.obs.fired = <<>>, "P", e, "NoSpontaneousExpiry")
+                  /\ Chk(e.a # "Wait" \/ Rebalanced(e), "P", e, "Rebalanced")
+                  /\ Chk(ImplOf(e), "I", e, "step")
+          /\ Chk(X01_TimersOnlyAtCoordinator', "P", e, "X01_TimersOnlyAtCoordinator")
+          /\ Chk(ViewsAgree(e), "I", e, "ViewsAgree")
+          /\ Chk(TypeOK', "I", e, "TypeOK")
+          /\ Chk(TimersComplete', "I", e, "TimersComplete")
+          /\ Chk(StatusLive', "I", e, "StatusLive")
+          /\ Chk(WitnessesAreGood', "I", e, "WitnessesAreGood")
 
 TraceSpec == TraceInit /\ [][TraceNext]_tvars
 
